@@ -261,7 +261,7 @@ func runCase(c Case) (nt bool, classes []string, err error) {
 	go func() { wg.Wait(); close(done) }()
 	select {
 	case <-done:
-	case <-time.After(10 * time.Second):
+	case <-time.After(ev.Patience(10 * time.Second)):
 		buf := make([]byte, 1<<16)
 		n := runtime.Stack(buf, true)
 		inInvoke := strings.Count(string(buf[:n]), "batch.(*Func).Invoke")
